@@ -8,19 +8,26 @@ from fam_generic import Family, run_family
 from vcore import SPEC, Undecided
 
 
-def M(mode, maxn, fullto, batch, stride, mc=True):
-    return dict(consts=dict(Mode=mode, MaxN=maxn, FullTo=fullto, Batch=batch, Stride=stride, Offset=0), mc=mc)
+def M(mode, maxn, fullto, batch, stride, mc=True, minn=0):
+    return dict(consts=dict(Mode=mode, MinN=minn, MaxN=maxn, FullTo=fullto, Batch=batch, Stride=stride, Offset=0), mc=mc)
+
+
+def W(centre, half=70, batch=10):
+    """A window of lengths around an index-width change (summary + probe logging)."""
+    return M("origin", centre + half, 0, batch, 1, minn=centre - half)
 
 
 ORIGIN = Family(
     "origin", "MC_TextIO", "Trace_TextIO", "textio", devs=False,
-    rounds={"quick": [M("origin", 2000, 600, 100, 1)],
-            "thorough": [M("origin", 20000, 5000, 250, 1)]},
+    rounds={"quick": [M("origin", 2000, 600, 100, 1), W(10020), W(100020)],
+            "thorough": [M("origin", 20000, 5000, 250, 1), W(100020, 200), W(1000020, 130), W(10000020, 65, 5)]},
     owns=lambda v: v["rule"].startswith("origin"),
-    rule_text=("every length 0..MaxN x {acgt, full printable alphabet}: NewOrigin(p).String parsed into index / group "
+    rule_text=("every length 0..MaxN, and windows of lengths around the changes of the index width (10^4, 10^5; thorough "
+               "also 10^6, 10^7), x {acgt, full printable alphabet}: NewOrigin(p).String parsed into index / group "
                "lengths, Len before decoding, Bytes, Len after; the record written as GenBank and scanned with LF (fast "
                "validation path) and CRLF (slow line-by-line path)"),
-    assumptions=["layout logged in full for n <= FullTo, as line count + last line above"],
+    assumptions=["layout logged in full for n <= FullTo; above: line count, last line and the lines on both sides of "
+                 "every index-width change (content, Len and Bytes are still compared in full)"],
 )
 
 FASTA = Family(
